@@ -206,6 +206,13 @@ def analyse(rep, prog, fn, rule, spec):
         rep.check(good, rule, key, "written completely by an exhaustive loop", "part %s: %s" % (name, lp["why"] or "no unconditional write per element"), lp["span"])
         check_value(rep, rule, key, spec, name, lp["writes"], tm, b, LEN)
     rep.floor(rule, "partition leaves of %s" % fn.split("::")[-1], n, 3)
+    # the partition has the expected shape: the partially covered table is the *last* one, the partially covered bitfield the
+    # first one after the split point
+    have = {name for _, name, _, _ in leaves}
+    missing = sorted(k for k in spec if k not in have and not any(h.startswith(k + ".") for h in have))
+    rep.check(not missing, rule, "%s|partition-shape" % fn.split("::")[-1], "parts: %s" % ", ".join(sorted(have)),
+              "the expected parts %s are not produced by the splits (found %s): the boundary element is taken from the wrong end" % (
+                  missing, sorted(have)), b.span)
     # split point of the bitfields: frames / LEN
     for bi, t, cn, src, call in splits:
         if cn == "slice::split_at" and any(x[0] == "f" and x[3] == "bitfields" for x in T.walk(src)):
